@@ -225,7 +225,7 @@ def cap_stations(mtu):
     return max(0, (mtu - 36) // 6)
 
 
-def mutate(rng, raw, mtu):
+def mutate(rng, raw, mtu, inflate_discover=True):
     """one of: truncate, inflate a wire counter, flip bits, randomise ToS/opcode, extend with junk"""
     b = bytearray(raw)
     r = rng.random()
@@ -236,7 +236,10 @@ def mutate(rng, raw, mtu):
         op = b[17]
         if op == W.OP_DISCOVER:
             fits = cap_stations(mtu)
-            struct.pack_into(">H", b, 34, rng.choice([0, 1, fits, fits + 1, 0xFFFF, 0x8000]))
+            if inflate_discover:
+                struct.pack_into(">H", b, 34, rng.choice([0, 1, fits, fits + 1, 0xFFFF, 0x8000]))
+            else:
+                struct.pack_into(">H", b, 34, rng.choice([0, 1, (len(b) - 36) // 6]))
         elif op == W.OP_EMIT:
             fits = cap_emit(mtu)
             struct.pack_into(">H", b, 32, rng.choice([0, 1, fits, fits + 1, 0xFFFF, 0x8000]))
@@ -261,7 +264,7 @@ def mutate(rng, raw, mtu):
 
 
 def session_history(rng, net, mtu, length, p_mut=0.15, p_noise=0.05, p_misc=0.1, max_emit=6,
-                    allow_reset=True, probes_to_me=0.6):
+                    allow_reset=True, probes_to_me=0.6, inflate_discover=True):
     """A mixture of valid mapper sessions, mutated frames and noise. Returns list of raw frames (<= mtu)."""
     out = []
     cur = None          # index of the mapper currently driving the session (generator's view only)
@@ -298,6 +301,6 @@ def session_history(rng, net, mtu, length, p_mut=0.15, p_noise=0.05, p_misc=0.1,
         else:
             fr = f_misc(rng, net)
         if rng.random() < p_mut:
-            fr = mutate(rng, fr, mtu)
+            fr = mutate(rng, fr, mtu, inflate_discover)
         out.append(fr[:mtu])
     return out
